@@ -1,21 +1,29 @@
 import Varint.Model.Adaptive
+import Varint.Model.AdaptiveDec
 import Driver.Arrays
 /- adaptive operations of the line protocol -/
 namespace Driver
 open Varint
 
+def showDecoded (b : List Nat) (n : Nat) : String :=
+  match Adaptive.decodeAll b n with
+  | some vs => s!" r={vs.length} {showBuf "d" (vs.flatMap (leBytes 8))}"
+  | none => " r=fault"
+
 def adaptiveRt (t : Array String) : String :=
   let (xs, _) := parseArray t 1
   let sel := Adaptive.select xs
   let b := Adaptive.encodeWith sel xs
-  s!"sel={sel} len={b.length} {showBuf "b" b} adv={Adaptive.maxSize xs.length} m={xs.length},{b.length}"
+  let dec := if xs.length = 0 ∨ b.length = 0 then "" else showDecoded b xs.length
+  s!"sel={sel} len={b.length} {showBuf "b" b} adv={Adaptive.maxSize xs.length} m={xs.length},{b.length}{dec}"
 
 def adaptiveWith (t : Array String) : String :=
   let ty := parseHex ((kw t "t").getD "5")
   let start := if (t.getD 1 "").contains '=' then 2 else 1
   let (xs, _) := parseArray t start
   let b := Adaptive.encodeWith ty xs
-  s!"len={b.length} {showBuf "b" b} m={ty},{xs.length},{b.length}"
+  let dec := if xs.length = 0 ∨ b.length = 0 then "" else showDecoded b xs.length
+  s!"len={b.length} {showBuf "b" b} m={ty},{xs.length},{b.length}{dec}"
 
 def adaptiveOp (t : Array String) : Option String :=
   match argS t 0 with
